@@ -43,9 +43,12 @@ structure World where
   caches : List CacheFile
   now : Nat
   extras : List Extra := []
+  /-- table files kept outside the installation directories (static) -/
+  tfiles : List TFile := []
   deriving Repr
 
-def World.init (nst : Nat) (dirs : List DirEnt) : World := ⟨nst, Spec.empty, dirs, [], [], 1, []⟩
+def World.init (nst : Nat) (dirs : List DirEnt) (tfiles : List TFile := []) : World :=
+  ⟨nst, Spec.empty, dirs, [], [], 1, [], tfiles⟩
 
 /-! ## pieces of a `Spec` -/
 
@@ -124,21 +127,33 @@ def unionAll : List Spec → Spec
   | [] => Spec.empty
   | c :: cs => specUnion c (unionAll cs)
 
-/-- `ProductStack.fromCache(dbpath, neededFlavors, persistDir=userCacheDir)` in a fresh process: when the cache
-file of every needed flavor exists and is up to date, and together they name the products of the database, they
-are loaded (`_tryCache`); otherwise the stack is rebuilt from the database, every flavor of it, and every flavor
-is saved -/
-def loadStack (w : World) (u : User) (self : Flav) (s : Nat) : Loaded :=
-  let rebuild : Loaded :=
-    let m := snapshot w.db s
-    let fs := specFlavors m ++ (needed self).filter fun f => !(specFlavors m).contains f
-    ⟨m, fs, saveAll u s m fs w⟩
+/-- the cache kept inside `ups_db/` of a stack, for everybody (`eups admin buildCache -A` writes it): the cache
+directory of a user of its own.  A process in admin mode (`Eups(asAdmin=True)`) is a process of this user. -/
+def sysUser : User := 0
+
+/-- `ProductStack._tryCache(dbpath, cacheDir, flavors)` on the cache directory of `u`: when the cache file of every
+needed flavor exists there and is up to date, and together they name the products of the database, THOSE files are
+loaded -/
+def tryCache (w : World) (u : User) (self : Flav) (s : Nat) : Option Spec :=
   match findCaches w u s (needed self) with
-  | none => rebuild
+  | none => none
   | some cfs =>
     let view := unionAll (cfs.map (·.c))
-    if cfs.all (accepts w) && (dbNames w.db s).all (specNames view).contains then ⟨view, needed self, w⟩
-    else rebuild
+    if cfs.all (accepts w) && (dbNames w.db s).all (specNames view).contains then some view else none
+
+/-- `ProductStack.fromCache(dbpath, neededFlavors, persistDir=userCacheDir)` in a fresh process: the user's own cache
+directory is tried first, then the one inside `ups_db/`; when neither is accepted the stack is rebuilt from the
+database, every flavor of it, and every flavor is saved in the user's directory -/
+def loadStack (w : World) (u : User) (self : Flav) (s : Nat) : Loaded :=
+  match tryCache w u self s with
+  | some view => ⟨view, needed self, w⟩
+  | none =>
+    match tryCache w sysUser self s with
+    | some view => ⟨view, needed self, w⟩
+    | none =>
+      let m := snapshot w.db s
+      let fs := specFlavors m ++ (needed self).filter fun f => !(specFlavors m).contains f
+      ⟨m, fs, saveAll u s m fs w⟩
 
 /-- `Eups.__init__`: every stack of the path in order; the flavors each stack holds are kept by stack -/
 def loadFrom (u : User) (self : Flav) :
@@ -277,6 +292,12 @@ inductive WCmd
   | rmCache (u : User) (s : Nat) (f : Flav)
   /-- `eups admin clearCache`: every cache file of the user, for every stack, goes -/
   | clearCache (u : User)
+  /-- `eups admin buildCache -A` run by user `u` with flavor `self`: `clearCache(inUserDir=False)` — which clears the
+  caches in the USER's directory (`userStackCacheFor(p, None)` falls back to it) — then `Eups(asAdmin=True)`, whose
+  cache directory is `ups_db/` of each stack: accepted when current, rebuilt and saved there otherwise -/
+  | adminBuild (u : User) (self : Flav)
+  /-- somebody deletes an installation directory by hand (`rm -rf`), without telling eups -/
+  | envRmDir (d : Dir)
   deriving Repr
 
 structure StepResult where
@@ -291,13 +312,17 @@ structure StepResult where
 def stepG (fixed : Bool) (w : World) : WCmd → StepResult
   | .rmCache u s f => ⟨.ok, false, [], Spec.empty, [], [], { w with caches := rmCache w.caches u s f }⟩
   | .clearCache u => ⟨.ok, false, [], Spec.empty, [], [], { w with caches := w.caches.filter fun x => x.user != u }⟩
+  | .adminBuild u self =>
+    let (m, fl, w1) := load { w with caches := w.caches.filter fun x => x.user != u } sysUser self
+    ⟨.ok, false, fl, m, [], [], w1⟩
+  | .envRmDir d => ⟨.ok, false, [], Spec.empty, [], [], { w with dirs := w.dirs.filter fun e => e.dir != d }⟩
   | .run u c crash =>
     let (m, fl, w1) := load w u c.self
-    let (out, p) := run w.nst c ⟨w1.db, m, w1.dirs, [], w1.extras⟩
+    let (out, p) := run w.nst c ⟨w1.db, m, w1.dirs, [], w1.extras, w.tfiles⟩
     let cut : List Eff × Option Eff := match crash with
       | none => (p.tr, none)
       | some k => cutAfterDb p.tr k
-    ⟨out, cut.2.isSome, fl, m, cut.1 ++ cut.2.toList, wouldDo w.nst c ⟨w1.db, m, w1.dirs, [], w1.extras⟩,
+    ⟨out, cut.2.isSome, fl, m, cut.1 ++ cut.2.toList, wouldDo w.nst c ⟨w1.db, m, w1.dirs, [], w1.extras, w.tfiles⟩,
      replay fixed u (heldOf fl) (w1, m) cut.1 cut.2⟩
 
 def step (w : World) (c : WCmd) : World := (stepG true w c).w
@@ -309,9 +334,11 @@ def stepPinned (w : World) (c : WCmd) : World := (stepG false w c).w
 def stepPinnedD16 (w : World) : WCmd → World
   | .rmCache u s f => { w with caches := rmCache w.caches u s f }
   | .clearCache u => { w with caches := w.caches.filter fun x => x.user != u }
+  | .adminBuild u self => (stepG true w (.adminBuild u self)).w
+  | .envRmDir d => { w with dirs := w.dirs.filter fun e => e.dir != d }
   | .run u c _ =>
     let (m, _, w1) := loadPinned w u c.self
-    let (_, p) := run w.nst c ⟨w1.db, m, w1.dirs, [], w1.extras⟩
+    let (_, p) := run w.nst c ⟨w1.db, m, w1.dirs, [], w1.extras, w.tfiles⟩
     (p.tr.foldl (applyWPinned u) (w1, m)).1
 
 /-- what a fresh process of the pinned tree sees through the cache -/
@@ -331,7 +358,7 @@ def stepF (Fw : DbFile.FileDb × World) (c : WCmd) : DbFile.FileDb × World :=
   let r := stepG true Fw.2 c
   (r.trace.foldl (fun F e => DbFile.applyF e F) Fw.1, r.w)
 
-def runHistoryF (nst : Nat) (dirs : List DirEnt) (h : List WCmd) : DbFile.FileDb × World :=
-  h.foldl stepF (DbFile.FileDb.empty, World.init nst dirs)
+def runHistoryF (nst : Nat) (dirs : List DirEnt) (h : List WCmd) (tfiles : List TFile := []) : DbFile.FileDb × World :=
+  h.foldl stepF (DbFile.FileDb.empty, World.init nst dirs tfiles)
 
 end EupsModel.Cache
